@@ -484,14 +484,17 @@ func (m *Manager) TerminateSession(ctx context.Context, sessionID string, reason
 		m.mu.Unlock()
 		return fmt.Errorf("session not found: %s", sessionID)
 	}
-	if session.State == StateTerminating {
+	if session.terminating {
 		// Another caller is between this check and the removal below: the
-		// session is ended once (one release of its addresses, one event)
+		// session is ended once (one release of its addresses, one event).
+		// The flag, not State, decides: State is overwritten by operations
+		// that may arrive meanwhile (ActivateSession, Authenticate, ...)
 		m.mu.Unlock()
 		return fmt.Errorf("session already terminating: %s", sessionID)
 	}
 
 	oldState := session.State
+	session.terminating = true
 	session.State = StateTerminating
 	session.StateReason = string(reason)
 	session.UpdatedAt = time.Now()
